@@ -311,6 +311,7 @@ def split_addrange_algebra(ctx, rule):
 
 
 def run(ctx):
+    ctx.rule('R09.13', 'agreement between the two sides is decided by a type-strict comparison (C05 R05.6): otherwise choosing the other side does not reproduce it', floor=4)
     ctx.rule('R09.11', 'the local and remote diff arguments of every decision-builder call are the two sides\' own diffs (mirror images of each other); one expression for both only where the insert aligner established equality', floor=40)
     ctx.rule('R09.12', 'merge_notebooks returns the notebook apply_decisions built from the returned decisions, unmodified (the pair stays consistent)', floor=1)
     ctx.rule('R09.8', 'entries re-sorted by key alone keep their input order at equal keys: the sorted list is appended to entry by entry (stable sort), or the sort key breaks ties explicitly', floor=2)
@@ -438,3 +439,5 @@ def run(ctx):
              'what is returned is exactly what the returned decisions produce' if ok else
              'the merged notebook is edited after the decisions were applied (%s): applying the returned decisions to base no longer gives the returned notebook' % (
                  repo.norm((muts or rebinds)[0])[:80]), (muts or rebinds)[0] if (muts or rebinds) else mn)
+    from .c05 import sides_compared_strictly
+    sides_compared_strictly(ctx, 'R09.13')
